@@ -12,6 +12,17 @@ CHECKS = {
    note="SHA-256 / rs_merkle collision freedom; nothing claimed beyond the length bound.",
    technique="bounded exhaustive enumeration of all input pairs against a reference (prefix) model, executed on the real CommitTree/CommitProof code",
    design_ref="DESIGN.md §5 C08"),
+ "C04": dict(engine="syncx", level="model_checking",
+   text="Every world within the bounds is executed on a real in-process server (axum on loopback, real ServerStorage) and real LocalAccounts bridged by the real sos_net::RemoteBridge: all pairs of offline suffixes (length <=1 over 12 edit kinds touching folder, account and identity logs incl. byte-identical events; length <=2 over 4 kinds, all unequal-length combinations) x both sync orders x clock patterns (one device older / all timestamps tied; thorough adds the reverse, interleaved clocks, 3 devices, sqlite on client and server), followed by rounds until quiescent. Oracle: after the rounds every device's sync status equals the server's for every log unless its last sync reported an error; replicas with equal status serve equal decrypted folders, including a third device that only pulls.",
+   note="Devices are driven one at a time (interleavings are C09's business); timestamps come from per-device logical clocks (hook H1); a device whose sync keeps returning an error is not counted as a violation because the property speaks about successful syncs (such worlds are counted in the evidence).",
+   technique="bounded exhaustive enumeration of sync worlds (offline-suffix tuples x sync orders x clock patterns) executed on the real client/server implementation",
+   design_ref="DESIGN.md §5 C04"),
+ "C05": dict(engine="syncx", level="model_checking",
+   text="On the same worlds as C04: for every log on which all replicas converged, the log must be the common prefix followed by exactly the multiset union of the devices' offline suffixes (byte-identical events made on several devices counted once): nothing lost, nothing duplicated, nothing added, prefix untouched, and the events unique to one device in timestamp order.",
+   note="As C04; logs that did not converge are C04's business and are skipped (count reported).",
+   technique="bounded exhaustive enumeration of sync worlds with a multiset-union merge model as oracle on the converged logs",
+   design_ref="DESIGN.md §5 C05"),
+
  "C10": dict(engine="cryptx", level="exploration",
    text="Complete enumeration, on the real cipher / KDF / vault code, of: every single-bit flip of nonce and ciphertext, every truncation, extensions, nonce-kind swap and every cross-splice within a pool of packs, per cipher and plaintext length (incl. empty); all ordered pairs of a password x salt x seed x KDF pool (keys distinct, cross decrypt fails); every access-point history up to the depth over unlock-right/unlock-wrong/lock/create/read/update (a wrong password never unlocks, nothing is ever written or read under a wrong key); nonce freshness over repeated encryptions and over every blob stored by the hist engine's account histories; age/X25519 round trip, wrong identity and bit flips.",
    note="AEAD/KDF primitives and the OS RNG are trusted; multi-MB plaintexts are not mutated exhaustively; RNG nonce uniqueness beyond the explored executions is a probabilistic claim outside this technique.",
